@@ -24,6 +24,7 @@ import (
 	"os"
 	"runtime"
 	"sort"
+	"strings"
 	"sync"
 	"sync/atomic"
 	"time"
@@ -696,15 +697,42 @@ func main() {
 			nr = 2 + rng.Intn(5)
 		}
 		sum["readers"] = nr
-		go func() { // watchdog: a hang is trouble of the run, not a verdict
+		go func() { // watchdog: nobody (one writer, the readers) finishes a call any more
 			last, since := int64(-1), time.Now()
 			for {
 				time.Sleep(500 * time.Millisecond)
 				if p := atomic.LoadInt64(&c.prog); p != last {
 					last, since = p, time.Now()
 				} else if time.Since(since) > time.Duration(*hang)*time.Second {
-					fmt.Fprintln(os.Stderr, "memdbchk: no progress")
-					os.Exit(2)
+					buf := make([]byte, 1<<16)
+					buf = buf[:runtime.Stack(buf, true)]
+					inMemdb := 0
+					var where []string
+					for _, g := range strings.Split(string(buf), "\n\n") {
+						if i := strings.Index(g, "goleveldb/leveldb/memdb."); i >= 0 {
+							inMemdb++
+							ln := g[i:]
+							if j := strings.Index(ln, "\n"); j > 0 {
+								ln = ln[:j]
+							}
+							if len(where) < 8 {
+								where = append(where, ln)
+							}
+						}
+					}
+					if inMemdb == 0 {
+						fmt.Fprintln(os.Stderr, "memdbchk: no progress, and no goroutine is inside memdb")
+						os.Exit(2)
+					}
+					// calls blocked inside memdb for good: the calls do not answer
+					tr.Emit(vt.Ev{"ev": "hang", "after_s": *hang, "blocked_in_memdb": inMemdb, "where": where})
+					tr.Close()
+					sum["hung"] = true
+					sum["events"] = tr.N()
+					sum["stats"] = e.stats
+					b, _ := json.Marshal(sum)
+					fmt.Println(string(b))
+					os.Exit(0)
 				}
 			}
 		}()
